@@ -186,6 +186,19 @@ func headerValue(typ, format, cls string) (string, bool) {
 		}
 		return "\xff\xfe", true
 	}
+	if cls == "okalt" {
+		// a second well-formed value of the published type / format, spelt another way: a validator must
+		// not be narrower than what the document publishes (RFC 4122: upper-case hex digits are accepted on input)
+		switch {
+		case typ == "integer":
+			return "0", true
+		case typ == "boolean":
+			return "false", true
+		case (typ == "string" || typ == "") && format == "uuid":
+			return "F47AC10B-58CC-4372-A567-0E02B2C3d479", true
+		}
+		return "", false // no second spelling: the request is not concretised
+	}
 	ok := cls == "ok"
 	switch typ {
 	case "integer":
